@@ -147,3 +147,71 @@ pub fn txn(args: &[String]) -> i32 {
     }
     0
 }
+
+// ---------------------------------------------------------------------------
+// script helpers
+use std::net::SocketAddr;
+
+pub fn parse_addr(s: &str) -> SocketAddr {
+    // 4:<8 hex>:<port>  |  6:<32 hex>:<port>
+    let p: Vec<&str> = s.split(':').collect();
+    let ip = parse_ip(p[1]).expect("bad ip");
+    let port: u16 = p[2].parse().expect("bad port");
+    SocketAddr::new(ip, port)
+}
+
+pub fn fmt_addr(a: &SocketAddr) -> String {
+    match a {
+        SocketAddr::V4(v) => format!("4:{}:{}", hex::encode(v.ip().octets()), v.port()),
+        SocketAddr::V6(v) => format!("6:{}:{}", hex::encode(v.ip().octets()), v.port()),
+    }
+}
+
+pub fn parse_id(s: &str) -> btdht::InfoHash {
+    let b = hex::decode(s).expect("bad id hex");
+    btdht::InfoHash::try_from(&b[..]).expect("bad id len")
+}
+
+fn set_time(ns: &str) {
+    btdht::verif::verif_clock::set_manual_ns(ns.parse().expect("bad time"));
+}
+
+/// `storage`: stdin script, cases separated by `RESET`:
+///   A <t_ns> <ih> <addr>   -> `A 0|1`
+///   F <t_ns> <ih>          -> `F <addr>,<addr>,...`
+pub fn storage(_args: &[String]) -> i32 {
+    use btdht::verif::AnnounceStorage;
+    let stdin = io::stdin();
+    let stdout = io::stdout();
+    let mut out = io::BufWriter::new(stdout.lock());
+    let mut st = AnnounceStorage::new();
+    for line in stdin.lock().lines() {
+        let line = line.unwrap();
+        let p: Vec<&str> = line.split_whitespace().collect();
+        if p.is_empty() {
+            continue;
+        }
+        match p[0] {
+            "RESET" => {
+                st = AnnounceStorage::new();
+                writeln!(out, "RESET").unwrap();
+            }
+            "A" => {
+                set_time(p[1]);
+                let ok = st.add_item(parse_id(p[2]), parse_addr(p[3]));
+                writeln!(out, "A {}", ok as u8).unwrap();
+            }
+            "F" => {
+                set_time(p[1]);
+                let ih = parse_id(p[2]);
+                let v: Vec<String> = st.find_items(&ih).map(|a| fmt_addr(&a)).collect();
+                writeln!(out, "F {}", v.join(",")).unwrap();
+            }
+            other => {
+                eprintln!("bad op {other}");
+                return 2;
+            }
+        }
+    }
+    0
+}
